@@ -38,7 +38,8 @@ def gen_value(rng, depth=0, nokeys=False):
     return dict((rng.choice(KEYS), gen_value(rng, depth + 1)) for _ in range(rng.choice([0, 0, 1, 2, 3])))
 
 
-NAME_PARTS = ["add", "get_data", "x", "Method9", "ping", "é", "名前", "with space", "dash-name", "q?", "a" * 30, "call", "close", "result"]
+NAME_PARTS = ["add", "get_data", "x", "Method9", "ping", "é", "名前", "with space", "dash-name", "q?", "a" * 30, "call", "close", "result",
+              "\u00b5s", "\u2126", "x\u00b2", "\ufb01le", "\uff21\uff22", "e\u0301", "\u212b"]
 
 
 def gen_name(rng):
@@ -98,7 +99,23 @@ def gen_c01(rng):
                     params = dict((rng.choice(["a", "b", "x1", "k_2", "é", "kw"]), gen_value(rng)) for _ in range(rng.choice([0, 1, 2, 3])))
                 return name, params
 
-            if rng.random() < 0.7:
+            k = rng.random()
+            if k < 0.12:
+                # two dotted calls through one kept handle: proxy.ns / ns.a(...) / ns.b(...)
+                prefix = rng.choice(["ns", "calc", "sub"]) + "%d%d" % (ci, oi)
+                calls = []
+                for e in range(2):
+                    suffix = rng.choice(["add", "mul", "x1"]) + str(e)
+                    name = prefix + "." + suffix
+                    used.add(name)
+                    spec = {"kind": "const", "ret": gen_value(rng)}
+                    if rng.random() < 0.5:
+                        instance[name] = spec
+                    else:
+                        methods[name] = spec
+                    calls.append([[suffix], [gen_value(rng) for _ in range(rng.choice([0, 1, 2]))]])
+                ops.append(["hcall", [prefix], calls])
+            elif k < 0.7:
                 name, params = one("c%do%d" % (ci, oi))
                 ops.append(["call", name.split(".") if "." in name else [name], params])
             else:
@@ -149,6 +166,14 @@ def analyse_c01(program, s, run, verdict):
         op = o["op"]
         if op[0] == "call":
             check_one(o["ci"], o["oi"], op[1], op[2], o["out"], "call")
+        elif op[0] == "hcall":
+            if o["out"][0] != "hcall":
+                v.append(Violation("C01", "return-value", "handle-raised:%s" % o["out"][1], "calls through a kept handle raised %s" % (o["out"][1:],)))
+                for suffix, params in op[2]:
+                    expected_calls[".".join(op[1] + suffix)] = params
+                continue
+            for (suffix, params), r in zip(op[2], o["out"][1]):
+                check_one(o["ci"], o["oi"], op[1] + suffix, params, r, "call through a kept handle")
         elif op[0] == "batch":
             if o["out"][0] != "batch":
                 v.append(Violation("C01", "return-value", "batch-raised:%s" % o["out"][1], "batch raised %s" % (o["out"][1:],)))
@@ -178,7 +203,7 @@ def analyse_c01(program, s, run, verdict):
     for ent in h.wire:
         by_req.setdefault(ent["req"], []).append(ent)
     for ci, hist in sorted(run.histories.items()):
-        nops = sum(1 for op in program["clients"][ci]["ops"] if op[0] in ("call", "batch", "notify"))
+        nops = sum((len(op[2]) if op[0] == "hcall" else 1) for op in program["clients"][ci]["ops"] if op[0] in ("call", "batch", "notify", "hcall"))
         if len(hist.requests) != nops or len(hist.responses) != nops:
             v.append(Violation("C01", "history", "length", "History of client %d has %d requests / %d responses for %d exchanges" % (
                 ci, len(hist.requests), len(hist.responses), nops)))
@@ -212,6 +237,8 @@ class C01Scenario(object):
             p["client_version_%s" % c.get("version")] = 1
             for op in c["ops"]:
                 p["style_" + op[0]] = 1
+                if op[0] == "hcall":
+                    continue
                 ents = [op] if op[0] == "call" else op[1]
                 for e in ents:
                     p["params_" + ("keyword" if isinstance(e[2], dict) else "positional")] = 1
@@ -287,7 +314,7 @@ class C01Scenario(object):
 
 def notif_bodies(rng, tok):
     """Raw request texts with notification shapes the client API cannot produce."""
-    m = rng.choice(["echo", "fail", "nope", "two", "echo"])
+    m = rng.choice(["echo", "fail", "nope", "two", "echo", "quit"])
     shapes = [
         '{"method": "%s", "params": ["%s"], "id": null}' % (m, tok),
         '{"jsonrpc": "2.0", "method": "%s", "params": ["%s"], "id": ""}' % (m, tok),
@@ -302,7 +329,7 @@ def notif_bodies(rng, tok):
     for e in range(rng.randint(1, 4)):
         t = "%se%d" % (tok, e)
         k = rng.random()
-        mm = rng.choice(["echo", "fail", "nope", "two"])
+        mm = rng.choice(["echo", "fail", "nope", "two", "quit"])
         if k < 0.5:
             ents.append(rng.choice([
                 '{"jsonrpc": "2.0", "method": "%s", "params": ["%s"]}' % (mm, t),
@@ -333,8 +360,8 @@ def gen_c04(rng):
     elif cd < 0.45:
         sv["custom_dispatch"] = "instance"
     methods = {"echo": {"kind": "echo"}, "fail": {"kind": "fail"}, "two": {"kind": "two"},
-               "slow": {"kind": "slow", "d": rng.choice([0.5, 1.0])}}
-    names = ["echo", "echo", "fail", "nope", "two", "slow"]
+               "slow": {"kind": "slow", "d": rng.choice([0.5, 1.0])}, "quit": {"kind": "exit"}}
+    names = ["echo", "echo", "fail", "nope", "two", "slow", "quit"]
     clients = []
     for ci in range(rng.randint(1, 3)):
         ops = []
@@ -353,6 +380,20 @@ def gen_c04(rng):
             else:
                 ops.append(["call", rng.choice(names), [tok]])
         clients.append({"version": rng.choice([None, 2.0, 1.0]), "history": False, "ops": ops})
+    if sv.get("custom_dispatch") in ("direct", "instance"):
+        # a user-written dispatch function that lets SystemExit through is outside what the library promises
+        # (it converts exceptions of *its own* dispatcher, which catches everything): keep 'quit' for the default path
+        del methods["quit"]
+        for c in clients:
+            for op in c["ops"]:
+                if op[0] in ("notify", "call") and op[1] == "quit":
+                    op[1] = "fail"
+                elif op[0] == "batch":
+                    for e in op[1]:
+                        if e[1] == "quit":
+                            e[1] = "fail"
+                elif op[0] == "raw":
+                    op[1] = op[1].replace('"quit"', '"fail"')
     return {"server": sv, "net": {"seg": rng.choice(["whole", "random"]), "delay": 0}, "methods": methods,
             "clients": clients, "lifecycle": "serve"}
 
@@ -525,6 +566,32 @@ class C04Scenario(C01Scenario):
 
 
 def gen_c13(rng):
+    if rng.random() < 0.35:
+        return gen_c13_small(rng)
+    return gen_c13_full(rng)
+
+
+def gen_c13_small(rng):
+    """Few short concurrent dispatcher threads: every pre-emption point is likely to be tried."""
+    sv = {"kind": "dispatcher", "family": "tcp", "version": rng.choice([2.0, 2.0, 1.0]), "handlers": rng.random() < 0.3}
+    methods = {"echo": {"kind": "echo"}, "fail": {"kind": "fail"}, "sub": {"kind": "sub"}}
+    clients = []
+    for ci in range(rng.randint(2, 3)):
+        ops = []
+        for oi in range(rng.randint(1, 2)):
+            tok = "c%do%d" % (ci, oi)
+            m = rng.choice(["echo", "echo", "fail", "sub", "nope"])
+            ops.append(["raw", rng.choice([
+                '{"method": "%s", "params": ["%s"], "id": "%s"}' % (m, tok, tok),
+                '{"method": "%s", "params": ["%s"], "id": "%s"}' % (m, tok, tok),
+                '{"jsonrpc": "2.0", "method": "%s", "params": ["%s"], "id": "%s"}' % (m, tok, tok),
+            ])])
+        clients.append({"version": None, "history": False, "ops": ops})
+    return {"server": sv, "net": {"seg": "whole", "delay": 0}, "methods": methods, "clients": clients, "lifecycle": "serve",
+            "config_mutations": rng.getrandbits(16)}
+
+
+def gen_c13_full(rng):
     kind = rng.choice(["dispatcher", "dispatcher", "plain", "pooled", "pooled-user"])
     sv = {"kind": kind, "family": rng.choice(["tcp", "unix"]), "version": rng.choice([2.0, 2.0, 1.0])}
     if kind == "pooled-user":
@@ -538,8 +605,9 @@ def gen_c13(rng):
     elif cd < 0.3:
         sv["custom_dispatch"] = "instance"
     methods = {"echo": {"kind": "echo"}, "fail": {"kind": "fail"}, "two": {"kind": "two"}, "fault": {"kind": "fault"},
-               "slow": {"kind": "slow", "d": rng.choice([0.25, 0.5, 1.0])}}
-    names = ["echo", "echo", "fail", "nope", "two", "slow", "slow", "fault"]
+               "slow": {"kind": "slow", "d": rng.choice([0.25, 0.5, 1.0])}, "sub": {"kind": "sub"}}
+    names = ["echo", "echo", "fail", "nope", "two", "slow", "slow", "fault", "sub"]
+    sv["handlers"] = rng.random() < 0.4
     clients = []
     for ci in range(rng.randint(1, 4)):
         ops = []
